@@ -73,6 +73,26 @@ type Node struct {
 	seq        int
 	Beh        Behaviour
 	CreateLog  []string // ids in creation order
+	Slow       map[string]time.Duration // operation name -> how long it takes
+	Cancelled  []CancelRec
+	ImageRemoves int
+}
+
+// SetSlow makes one kind of operation take d of virtual time (0 = immediate).
+func (n *Node) SetSlow(what string, d time.Duration) {
+	n.mu.Lock()
+	defer n.mu.Unlock()
+	if n.Slow == nil {
+		n.Slow = map[string]time.Duration{}
+	}
+	n.Slow[what] = d
+}
+
+// CancelledOps returns the slow operations that ended by context cancellation so far.
+func (n *Node) CancelledOps() []CancelRec {
+	n.mu.Lock()
+	defer n.mu.Unlock()
+	return append([]CancelRec{}, n.Cancelled...)
 }
 
 // NewNode creates the engine-side state of a machine.
@@ -132,7 +152,30 @@ func (e *Engine) seam(ctx context.Context, what string) error {
 	if err := e.Sim.Seam(e.Inst, "engine", what+" "+e.N.Name, !verifrt.IsRollback(ctx)); err != nil {
 		return err
 	}
+	// a slow engine operation: it takes Slow[what] of virtual time unless the caller's
+	// context ends first (recorded: C19 watches it at the calcium level)
+	e.N.mu.Lock()
+	d := e.N.Slow[what]
+	e.N.mu.Unlock()
+	if d > 0 {
+		t := time.NewTimer(d)
+		defer t.Stop()
+		select {
+		case <-ctx.Done():
+			e.N.mu.Lock()
+			e.N.Cancelled = append(e.N.Cancelled, CancelRec{What: what, At: time.Now()})
+			e.N.mu.Unlock()
+			return ctx.Err()
+		case <-t.C:
+		}
+	}
 	return ctx.Err()
+}
+
+// CancelRec records a slow operation that ended because its context was cancelled.
+type CancelRec struct {
+	What string
+	At   time.Time
 }
 
 func (e *Engine) Info(ctx context.Context) (*enginetypes.Info, error) {
@@ -150,7 +193,19 @@ func (e *Engine) NetworkConnect(context.Context, string, string, string, string)
 func (e *Engine) NetworkDisconnect(context.Context, string, string, bool) error { return nil }
 func (e *Engine) NetworkList(context.Context, []string) ([]*enginetypes.Network, error) { return nil, nil }
 func (e *Engine) ImageList(context.Context, string) ([]*enginetypes.Image, error) { return nil, nil }
-func (e *Engine) ImageRemove(context.Context, string, bool, bool) ([]string, error) { return nil, nil }
+func (e *Engine) ImageRemove(context.Context, string, bool, bool) ([]string, error) {
+	e.N.mu.Lock()
+	e.N.ImageRemoves++ // how often this machine was acted upon (C21)
+	e.N.mu.Unlock()
+	return nil, nil
+}
+
+// ImageRemoveCount returns how many image removals this machine has seen.
+func (n *Node) ImageRemoveCount() int {
+	n.mu.Lock()
+	defer n.mu.Unlock()
+	return n.ImageRemoves
+}
 func (e *Engine) ImagesPrune(context.Context) error { return nil }
 func (e *Engine) ImagePull(ctx context.Context, ref string, all bool) (io.ReadCloser, error) {
 	if err := e.seam(ctx, "ImagePull"); err != nil {
